@@ -97,9 +97,10 @@ struct row {
     uint64_t (*ref)(const void *);
     void *(*set)(void *, uint64_t);
 };
-#define ROW(W, K, O, T)                                                        \
+#define ROWINIT(W, K, O, T)                                                    \
     { W, KIND_##K, ORD_##O, (int)(sizeof(T) * 8), "bf_ref_" #K #W #O, "bf_set_" #K #W #O, \
-      wr_##K##W##O, ws_##K##W##O },
+      wr_##K##W##O, ws_##K##W##O }
+#define ROW(W, K, O, T) ROWINIT(W, K, O, T),
 static const struct row rows[] = { ALL_ROWS(ROW) };
 #define NROWS ((int)(sizeof rows / sizeof rows[0]))
 
@@ -404,7 +405,7 @@ load_clause(const struct row *r)
 
 /* One store + load of pattern v through row r at offset off in the exact-size
  * blocks.  Returns false after reporting the first disagreement. */
-static inline bool
+static inline __attribute__((always_inline)) bool
 store_load(const struct row *r, uint64_t v, int off)
 {
     const int W = r->width, nb = W / 8;
@@ -416,7 +417,10 @@ store_load(const struct row *r, uint64_t v, int off)
         p[j] = (unsigned char)~exp[j]; /* an octet that is not written stays wrong */
     void *ret = r->set(p, arg);
     char h1[32], h2[32];
-    if (memcmp(p, exp, (size_t)nb) != 0) {
+    unsigned diff = 0; /* plain loops: the libc calls are intercepted by ASan and dominate a 2^32 sweep */
+    for (int j = 0; j < nb; ++j)
+        diff |= (unsigned)(p[j] ^ exp[j]);
+    if (diff != 0) {
         mc_fail("C15/store-octets", "%s(ptr+%d, 0x%llx) stored [%s], expected [%s]", r->setname, off,
                 (unsigned long long)arg, hex(h1, p, nb), hex(h2, exp, nb));
         return false;
@@ -435,7 +439,8 @@ store_load(const struct row *r, uint64_t v, int off)
         }
     /* load from octets produced by the reference, not by the setter */
     unsigned char *q = rblk[nb][off] + off;
-    memcpy(q, exp, (size_t)nb);
+    for (int j = 0; j < nb; ++j)
+        q[j] = exp[j];
     const uint64_t got = r->ref(q);
     if (got != arg) {
         mc_fail(load_clause(r), "%s(ptr+%d) over [%s] returned 0x%llx, expected 0x%llx", r->refname, off,
@@ -665,12 +670,47 @@ sweep_outcome(const struct row *r, uint64_t base, uint64_t count)
     return (((base >> 23) & 0xffu) == 0xffu) ? "sweep-float-nan" : "sweep-float-finite";
 }
 
+/* One specialised inner loop per row (same table macro, same order as rows[]):
+ * with the row a compile-time constant the codec under test is inlined into
+ * the loop, which is what makes the 2^32 sweeps affordable. */
+typedef void sweepfn(uint64_t base, uint64_t count, int off, uint64_t salt);
+#define SWEEPFN(W, K, O, T)                                                    \
+    static void sweep_##K##W##O(uint64_t base, uint64_t count, int off, uint64_t salt) \
+    {                                                                          \
+        static const struct row r = ROWINIT(W, K, O, T);                       \
+        for (uint64_t i = 0; i < count; ++i) {                                 \
+            const uint64_t v = base + i;                                       \
+            if (!store_load(&r, v, off >= 0 ? off : (int)((v + salt) & 7u)))   \
+                break;                                                         \
+        }                                                                      \
+    }
+#define SWEEP_ROWS(X)                                                          \
+    ORDERS(X, 16, u, uint16_t) ORDERS(X, 16, s, int16_t)                       \
+    ORDERS(X, 24, u, uint32_t) ORDERS(X, 24, s, int32_t)                       \
+    ORDERS(X, 32, u, uint32_t) ORDERS(X, 32, s, int32_t) ORDERS(X, 32, f, float)
+SWEEP_ROWS(SWEEPFN)
+#define SWEEPENTRY(W, K, O, T) { "bf_set_" #K #W #O, sweep_##K##W##O },
+static const struct {
+    const char *setname;
+    sweepfn *fn;
+} sweepfns[] = { SWEEP_ROWS(SWEEPENTRY) };
+
+static sweepfn *
+sweep_of(const struct row *r)
+{
+    for (size_t i = 0; i < sizeof sweepfns / sizeof sweepfns[0]; ++i)
+        if (!strcmp(sweepfns[i].setname, r->setname))
+            return sweepfns[i].fn;
+    mc_broken("no specialised sweep loop for %s", r->setname);
+}
+
 static void
 sweep_row(const struct row *r, bool every_offset)
 {
     const int W = r->width, nb = W / 8;
     const uint64_t total = (uint64_t)1 << W;
     const uint64_t step = total < CHUNK ? total : CHUNK;
+    sweepfn *const sweep = sweep_of(r);
     for (uint64_t base = 0; base < total; base += step) {
         for (int off = every_offset ? 0 : -1; off < (every_offset ? 8 : 0); ++off) {
             if (off >= 0) {
@@ -682,12 +722,7 @@ sweep_row(const struct row *r, bool every_offset)
                                 (unsigned long long)(base + step - 1))) {
                 continue;
             }
-            const uint64_t salt = base >> 20;
-            for (uint64_t i = 0; i < step; ++i) {
-                const uint64_t v = base + i;
-                if (!store_load(r, v, off >= 0 ? off : (int)((v + salt) & 7u)))
-                    break;
-            }
+            sweep(base, step, off, base >> 20);
             mc_trans((int64_t)(3 * step));
             mc_end(true, sweep_outcome(r, base, step));
         }
